@@ -753,3 +753,185 @@ Proof.
       rewrite Es. exact I.
     + cbn [step]. change (last_hash (set_rpc_log t [])) with (last_hash t). rewrite El. exact I.
 Qed.
+
+(* ------------------------------------------------------------------------------------------ *)
+(* 6. the big invariant is preserved by every step inside the envelope and the chain discipline *)
+
+Lemma same_ledger_exp t t' : TowerLedger.same_ledger t t' -> ExpInv t -> ExpInv t'.
+Proof. intros [_ [Hu [_ [_ Hc]]]] HE u ui. rewrite Hu, Hc. apply HE. Qed.
+
+Lemma same_ledger_slot t t' : TowerLedger.same_ledger t t' -> SlotInv t -> SlotInv t'.
+Proof. intros Hs HS v. destruct (TowerLedger.same_ledger_bal t t' Hs v) as [_ Hb]. rewrite Hb. apply HS. Qed.
+
+Lemma store_triggered_indexes sc t a d t' :
+  w_store_triggered sc t a d = Ok tt t' -> r_index t' = r_index t /\ w_cache t' = w_cache t.
+Proof.
+  unfold w_store_triggered. destruct (decrypt (a_blob a) d) as [p|].
+  - destruct (w_store_appointment t a) as [[] t1|] eqn:E1; cbn [bind]; [|discriminate].
+    apply store_appointment_indexes in E1. destruct E1 as [Hi1 Hw1].
+    destruct (r_handle_breach sc t1 (app_uuid a) d p) as [s t2|] eqn:E2; cbn [bind]; [|discriminate].
+    apply handle_breach_kcore in E2. apply kcore_fields in E2. destruct E2 as [_ [_ [_ [_ [_ [Hi2 [Hw2 _]]]]]]].
+    destruct (status_rejected s); unfold gk_delete_appointments; intros H; inversion H; subst t'; clear H;
+      cbn [r_index w_cache db_delete_apps set_db_trks set_db_apps]; split; congruence.
+  - destruct (find_app (db_apps t) (app_uuid a)); unfold gk_delete_appointments; intros H; inversion H; subst; split; reflexivity.
+Qed.
+
+Lemma add_appointment_indexes sc t signer loc b delay sig r t' :
+  w_add_appointment sc t signer loc b delay sig = Ok r t' -> r_index t' = r_index t /\ w_cache t' = w_cache t.
+Proof.
+  unfold w_add_appointment.
+  destruct (authenticate t signer) as [u|]; [|intros H; inversion H; split; reflexivity].
+  destruct (gk_get t u) as [ui|] eqn:Eg; [|discriminate].
+  destruct (N.leb (u_expiry ui) (gk_height t)); [intros H; inversion H; split; reflexivity|].
+  destruct (find_trk (db_trks t) (loc, u)); [intros H; inversion H; split; reflexivity|].
+  unfold gk_add_update_appointment. rewrite Eg.
+  match goal with |- context [if ?c then _ else _] => destruct c end; cbn [bind]; [|intros H; inversion H; split; reflexivity].
+  set (t1 := p_set_user t u _).
+  change (w_cache t1) with (w_cache t).
+  destruct (ti_get (w_cache t) loc) as [d|].
+  - match goal with |- context [w_store_triggered sc t1 ?a d] => destruct (w_store_triggered sc t1 a d) as [[] t2|] eqn:E2 end;
+      cbn [bind]; intros H; inversion H; subst. apply store_triggered_indexes in E2. exact E2.
+  - match goal with |- context [w_store_appointment t1 ?a] => destruct (w_store_appointment t1 a) as [[] t2|] eqn:E2 end;
+      cbn [bind]; intros H; inversion H; subst. apply store_appointment_indexes in E2. exact E2.
+Qed.
+
+Lemma idx_inv_same t t' : r_index t' = r_index t -> w_cache t' = w_cache t -> IdxInv t -> IdxInv t'.
+Proof. intros Hi Hw [X1 X2 X3 X4 X5]. constructor; rewrite ?Hi, ?Hw; assumption. Qed.
+
+Lemma idx_wf_disconnect_suffix (w r : txindex N) hash :
+  idx_wf w -> is_suffix (ti_blocks w) (ti_blocks r) -> last (map Some (ti_blocks r)) None = Some hash ->
+  idx_wf (ti_disconnect w hash).
+Proof.
+  intros Hwf [p Hp] Hl.
+  assert (Hcase : ti_blocks w = [] \/ exists wr w0, ti_blocks w = wr ++ [w0]).
+  { destruct (ti_blocks w) as [|w0 wr _] using rev_ind; [left; reflexivity|right; eauto]. }
+  destruct Hcase as [Ew|[wr [w0 Ew]]].
+  - unfold ti_disconnect. destruct (aget (ti_txs w) hash); [|exact Hwf]. rewrite Ew.
+    split; cbn [ti_blocks]; [constructor|intros h []].
+  - destruct (last_map_some _ _ Hl) as [bs Eb]. rewrite Ew, Eb, app_assoc in Hp.
+    apply app_inj_tail in Hp. destruct Hp as [_ Hx]. subst w0.
+    apply (idx_wf_disconnect w hash Hwf). rewrite Ew, map_app. cbn [map]. apply last_last.
+Qed.
+
+Lemma ti_disconnect_size (i : txindex N) hash : ti_size (ti_disconnect i hash) = ti_size i.
+Proof. unfold ti_disconnect. destruct (aget (ti_txs i) hash); [|reflexivity]. destruct (ti_blocks i); reflexivity. Qed.
+
+Theorem step_big le t o sc :
+  BigInv t -> envb t o = true -> chainb t o = true -> BigInv (fst (step le t o sc)).
+Proof.
+  intros HB Henv Hch. pose proof (step_never_aborts le t o sc HB Henv) as Hna.
+  pose proof HB as [HI HC HX HE HS].
+  assert (Hfresh : match o with OConnect hash _ => ~ In hash (ti_blocks (r_index t)) | _ => True end).
+  { destruct o; try exact I. cbn [chainb] in Hch. apply negb_true_iff in Hch. apply memN_false in Hch. exact Hch. }
+  pose proof (step_pres Inv inv_stable le t o sc HI Hna) as HI'.
+  pose proof (step_chain le t o sc HI HC Hfresh Hna) as HC'.
+  pose proof (TowerLedger.step_cfg le t o sc Hna) as Hcfg.
+  destruct (step le t o sc) as [t' x] eqn:Es. cbn [fst snd] in *.
+  pose proof (TowerLedger.step_out_shape le t o sc t' x Es) as Hshape.
+  constructor; [exact HI'|exact HC'|..];
+    destruct o as [u|signer loc b delay sig|signer loc|signer|hash txs|]; destruct x as [r|r|r|r| |s]; try contradiction.
+  (* ---- IdxInv ---- *)
+  - assert (Hi : r_index t' = r_index t /\ w_cache t' = w_cache t).
+    { revert Es. cbn [step wrap]. unfold gk_add_update_user.
+      destruct (gk_get (set_rpc_log t []) u) as [ui|].
+      - destruct (u32_add (u_slots ui) _); cbn [wrap]; intros H; inversion H; subst; split; reflexivity.
+      - destruct (u32_add (gk_height _) _); [|cbn [wrap]; intros H; inversion H].
+        destruct (amem _ u); cbn [wrap]; intros H; inversion H; subst; split; reflexivity. }
+    destruct Hi as [Hi Hw]. exact (idx_inv_same t t' Hi Hw HX).
+  - assert (Hi : r_index t' = r_index t /\ w_cache t' = w_cache t).
+    { revert Es. cbn [step].
+      destruct (w_add_appointment sc (set_rpc_log t []) signer loc b delay sig) as [r0 t0|s0 t0] eqn:Ea; cbn [wrap]; intros H; inversion H; subst.
+      apply add_appointment_indexes in Ea. exact Ea. }
+    destruct Hi as [Hi Hw]. exact (idx_inv_same t t' Hi Hw HX).
+  - destruct (get_unchanged le t sc signer loc) as [r' Hr']. rewrite Hr' in Es. inversion Es; subst. exact (bi_idx _ (big_fresh t HB)).
+  - destruct (getsub_unchanged le t sc signer) as [r' Hr']. rewrite Hr' in Es. inversion Es; subst. exact (bi_idx _ (big_fresh t HB)).
+  - cbn [envb] in Henv. apply N.leb_le in Henv.
+    destruct (connect_phases_ok le t hash txs sc HB Henv) as [tg [tw [t'' [Eg [Ew [Er [Es' [HIg [HIw _]]]]]]]]].
+    rewrite Es in Es'. inversion Es'. subst t''. clear Es'.
+    destruct (gk_block_connected_wcache _ _ _ Eg) as [Hwg _].
+    destruct (TowerLedger.gk_block_spec _ _ _ Eg) as [_ [_ [_ [_ [Hig _]]]]].
+    destruct (w_block_connected_indexes _ _ _ _ _ Ew) as [Euw [Hiw _]].
+    destruct (r_block_connected_facts le sc tw _ _ t' HIw Er) as [lim [t5 F]].
+    pose proof (rf_index _ _ _ _ _ _ _ F) as Eur. destruct (rf_heights _ _ _ _ _ _ _ F) as [_ [_ [Hwr _]]].
+    rewrite Hwg in Euw. change (w_cache (fresh t)) with (w_cache t) in Euw. rewrite <- Hwr in Euw.
+    rewrite Hiw, Hig in Eur. change (r_index (fresh t)) with (r_index t) in Eur.
+    destruct HX as [X1 X2 X3 X4 X5].
+    assert (Hfw : ~ In (ib_hash (cache_block hash txs)) (ti_blocks (w_cache t))).
+    { cbn [ib_hash cache_block]. intros Hin. apply Hfresh. destruct X4 as [p Hp]. rewrite Hp. apply in_or_app. right. exact Hin. }
+    constructor.
+    + exact (proj1 (idx_wf_update _ _ _ X1 Hfw Euw)).
+    + exact (idx_val_update _ _ _ X2 (index_block_self hash txs) Hfresh Eur).
+    + exact (len_ok_update _ _ _ X3 Eur).
+    + exact (suffix_update (w_cache t) (r_index t) (cache_block hash txs) (index_block hash txs) _ _ X4 X5 eq_refl Euw Eur).
+    + destruct (ti_update_blocks _ _ _ Euw) as [Hs1 _]. destruct (ti_update_blocks _ _ _ Eur) as [Hs2 _]. lia.
+  - destruct (last_hash t) as [hash|] eqn:El.
+    + destruct (disconnect_shape le t sc hash El (disconnect_height_pos t hash HC (ii_len _ HX) El)) as [t'' [Es' [Hi Hw]]].
+      rewrite Es in Es'. inversion Es'. subst t''. clear Es'. destruct HX as [X1 X2 X3 X4 X5].
+      constructor; rewrite ?Hi, ?Hw.
+      * exact (idx_wf_disconnect_suffix _ _ hash X1 X4 El).
+      * exact (idx_val_disconnect _ hash X2 El).
+      * exact (len_ok_disconnect _ hash X3).
+      * exact (suffix_disconnect _ _ hash X4 X1 (ci_idx _ HC) El).
+      * rewrite !ti_disconnect_size. exact X5.
+    + revert Es. cbn [step]. change (last_hash (set_rpc_log t [])) with (last_hash t). rewrite El.
+      intros H; inversion H; subst. exact (bi_idx _ (big_fresh t HB)).
+  (* ---- ExpInv ---- *)
+  - cbn [envb] in Henv. intros v vi. rewrite Hcfg. revert Es. destruct (gk_get t u) as [ui|] eqn:Eg.
+    + destruct (N.leb_spec (u_slots ui + c_slots (cfg t)) U32MAX) as [Hs|Hs].
+      * rewrite (register_renew le t sc u ui Eg Hs). intros H; inversion H; subst t'; clear H.
+        unfold p_set_user, db_update_user. cbn [db_users set_db_users gk_put set_gk_users fresh set_rpc_log].
+        rewrite aget_map_update. destruct (N.eqb v u) eqn:Ev; [|apply HE].
+        destruct (aget (db_users t) v); [|discriminate]. intros H; inversion H; subst vi; clear H. cbn [u_expiry].
+        cbn [negb orb] in Henv. apply andb_true_iff in Henv.
+        destruct Henv as [He _]. apply N.leb_le in He. exact He.
+      * rewrite (register_max_slots le t sc u ui Eg Hs). intros H; inversion H; subst t'; clear H. apply HE.
+    + apply andb_true_iff in Henv. destruct Henv as [He _]. apply N.leb_le in He.
+      assert (Hm : amem (db_users t) u = false).
+      { unfold amem. rewrite <- (inv_sync t HI). unfold gk_get in Eg. rewrite Eg. reflexivity. }
+      rewrite (register_new le t sc u Eg Hm) by lia. intros H; inversion H; subst t'; clear H.
+      unfold p_new_user. cbn [db_users set_db_users gk_put set_gk_users fresh set_rpc_log].
+      rewrite aget_app_single. destruct (aget (db_users t) v) as [x|] eqn:Ex; [intros H; inversion H; subst; apply (HE v); exact Ex|].
+      destruct (N.eqb v u); [|discriminate]. intros H; inversion H; subst vi. cbn [u_expiry]. exact He.
+  - intros v vi.
+    pose proof (TowerLedger.add_refused_same le t signer loc b delay sig sc t' _ Es) as Hs.
+    destruct r as [st sg sl e| | |]; cbn beta iota in Hs;
+      [clear Hs; rewrite Hcfg|exact (same_ledger_exp t t' Hs HE v vi)..].
+    destruct (TowerLedger.add_ok_shape le t signer loc b delay sig sc t' st sg sl e HI Es) as [u [ui [_ [Eu [_ [_ [Hu' _]]]]]]].
+    rewrite Hu', aget_map_update. destruct (N.eqb v u) eqn:Ev; [|apply HE].
+    apply N.eqb_eq in Ev. subst v. rewrite Eu. intros H; inversion H; subst vi. cbn [u_expiry]. apply (HE u). exact Eu.
+  - destruct (get_unchanged le t sc signer loc) as [r' Hr']. rewrite Hr' in Es. inversion Es; subst. exact HE.
+  - destruct (getsub_unchanged le t sc signer) as [r' Hr']. rewrite Hr' in Es. inversion Es; subst. exact HE.
+  - intros v vi Hv. rewrite Hcfg. pose proof (connect_purges_exactly le t hash txs sc t' HI Es v) as Hp.
+    rewrite Hv in Hp. cbn [option_map] in Hp. destruct (aget (db_users t) v) as [ui|] eqn:Eu; [|discriminate].
+    destruct (N.leb _ _); [discriminate|]. inversion Hp as [[H1 H2]]. rewrite H2. apply (HE v). exact Eu.
+  - exact (same_ledger_exp t t' (TowerLedger.disconnect_bal le t sc t' _ Es) HE).
+  (* ---- SlotInv ---- *)
+  - cbn [envb] in Henv. intros v. pose proof (TowerLedger.register_bal le t u sc t' r HI Es) as Hb.
+    destruct r as [s st e|]; [|exact (same_ledger_slot t t' Hb HS v)].
+    destruct Hb as [Hnew [Hren [_ [_ Hoth]]]].
+    destruct (N.eqb_spec v u) as [->|Hne]; [|destruct (Hoth v Hne) as [_ Hbv]; rewrite Hbv; apply HS].
+    destruct (gk_get t u) as [ui|] eqn:Eg.
+    + assert (Hm : amem (db_users t) u = true).
+      { unfold amem. rewrite <- (inv_sync t HI). unfold gk_get in Eg. rewrite Eg. reflexivity. }
+      rewrite (Hren Hm).
+      destruct (N.leb_spec (u_slots ui + c_slots (cfg t)) U32MAX) as [Hs|Hs].
+      * cbn [negb orb] in Henv. apply andb_true_iff in Henv.
+        destruct Henv as [_ He]. apply N.leb_le in He. exact He.
+      * exfalso. rewrite (register_max_slots le t sc u ui Eg Hs) in Es. inversion Es.
+    + assert (Hm : amem (db_users t) u = false).
+      { unfold amem. rewrite <- (inv_sync t HI). unfold gk_get in Eg. rewrite Eg. reflexivity. }
+      rewrite (Hnew Hm). apply andb_true_iff in Henv. destruct Henv as [_ He]. apply N.leb_le in He. exact He.
+  - intros v. pose proof (TowerLedger.add_bal le t signer loc b delay sig sc t' r HI Es) as Hb.
+    destruct r as [st sg sl e| | |]; try exact (same_ledger_slot t t' Hb HS v).
+    destruct Hb as [u [_ [_ [_ [Hu Hoth]]]]].
+    destruct (N.eqb_spec v u) as [->|Hne]; [|destruct (Hoth v Hne) as [_ [_ Hbv]]; rewrite Hbv; apply HS].
+    pose proof (HS u) as Hsu. assert (Hlt : bal t u < U32MOD) by (unfold U32MOD, U32MAX in *; lia).
+    destruct (Hu Hlt) as [_ Hb2]. destruct (TowerLedger.held_version _ _ _ _); lia.
+  - destruct (get_unchanged le t sc signer loc) as [r' Hr']. rewrite Hr' in Es. inversion Es; subst. exact HS.
+  - destruct (getsub_unchanged le t sc signer) as [r' Hr']. rewrite Hr' in Es. inversion Es; subst. exact HS.
+  - cbn [envb] in Henv. apply N.leb_le in Henv.
+    destruct (connect_phases_ok le t hash txs sc HB Henv) as [tg [tw [t'' [Eg [Ew [Er [Es' [HIg [HIw Hbal]]]]]]]]].
+    rewrite Es in Es'. inversion Es'. subst t''. clear Es'.
+    intros v. pose proof (r_phase_bal le sc tw hash txs _ t' HIw Er v). specialize (Hbal v). specialize (HS v). lia.
+  - exact (same_ledger_slot t t' (TowerLedger.disconnect_bal le t sc t' _ Es) HS).
+Qed.
